@@ -249,6 +249,28 @@ def particle_work(payload):
             qi = np.where(x >= 0, np.sqrt(np.abs(x)) / (2 * ms) + 0j, 1j * np.sqrt(np.abs(x)) / (2 * ms))
             tot = tot + extra["g_%d" % i] * qi / ms
         ref = 1 / (m0 * m0 - ms * ms + sign * 1j * m0 * tot)
+    elif model in ("FlatteGen", "Flatte2"):
+        def qc(mm, ma, mb):
+            x = (mm * mm - (ma + mb) ** 2) * (mm * mm - (ma - mb) ** 2)
+            return np.where(x >= 0, np.sqrt(np.abs(x)) / (2 * mm) + 0j, 1j * np.sqrt(np.abs(x)) / (2 * mm))
+
+        tot = 0
+        ll = extra.get("l_list") or [0] * len(extra["mass_list"])
+        for i, (ma, mb) in enumerate(extra["mass_list"]):
+            gi = extra["g_%d" % i] ** (2 if model == "Flatte2" else 1)
+            qi, qi0 = qc(ms, ma, mb), abs(complex(qc(np.array(m0), ma, mb)))
+            t = gi * qi / ms
+            if extra.get("no_q0"):
+                qi0 = 1.0
+            else:
+                t = t * m0 / qi0
+            t = t * (np.abs(qi) / qi0) ** (2 * ll[i])
+            if extra.get("has_bprime", True):
+                t = t * R.bw_barrier_sq(ll[i], qi0 * d) / R.bw_barrier_sq_vec(ll[i], (np.abs(qi) * d) ** 2)
+            if extra.get("cut_phsp"):
+                t = np.where(ms < ma + mb, 0, t)
+            tot = tot + t
+        ref = 1 / (m0 * m0 - ms * ms - 1j * (1.0 if extra.get("no_m0") else m0) * tot)
     elif model == "BWR_LS2":
         ref = [1 / (m0 * m0 - ms * ms - 1j * m0 * g0 * (q / q0) * (m0 / ms) * 1.0)] if L == 0 else None
         if L == 0:
@@ -305,7 +327,7 @@ def particle_work(payload):
 
         try:
             var = p.get_sympy_var()
-            f = p.get_sympy_dom(*var)
+            f = p.get_sympy_dom(*var, **({"sheet": payload["sheet"]} if "sheet" in payload else {}))
             num = p.get_num_var()
             flat_v, flat_n = [], []
 
@@ -321,7 +343,7 @@ def particle_work(payload):
             sub = dict(zip(flat_v, flat_n))
             gl = np.asarray(got if not isinstance(got, list) else got[0]).reshape(-1)
             msd, q = ms_cmp, q_of(ms_cmp, M1, M2)
-            above = [i for i in range(len(msd)) if msd[i] > M1 + M2]
+            above = [i for i in range(len(msd)) if msd[i] > max([M1 + M2] + [a + b for a, b in extra.get("mass_list", [])])]
             for i in above[::3]:
                 dv = complex(sym.N(f.subs(sub).subs({var[0]: float(msd[i])}), 30))
                 res.case(nontrivial_key=("dom", model, J, m0, g0, i))
@@ -335,6 +357,143 @@ def particle_work(payload):
             pass
     res.sample({"part": "particle", "model": model, "J": J, "m0": m0, "g0": g0, "extra": extra}, limit=1)
     return res.done()
+
+
+# ------------------------------------------------------------------ split-(l,s) particle models with several couplings
+LS_CARDS = {
+    # name: (J^P of R, J^P of B)  -> list of l of R -> B C  (C is 0^-)
+    "l02": ((1, 1), (1, -1)),      # 1+ -> 1- 0- : l = 0, 2
+    "l13": ((2, 1), (1, 1)),       # 2+ -> 1+ 0- : l = 1, 3 (parity) ...
+    "l012": ((1, 1), (1, -1)),     # with p_break on the R decay: l = 0, 1, 2
+}
+
+
+def ls_work(payload):
+    """BWR_LS / BWR_LS2 / MultiBWR / MultiBW through Particle.get_ls_amp(m, ls, q2, q02, d), the entry point of the LS-decay"""
+    from tf_pwa.amp.core import get_relative_p2
+    from tf_pwa.config_loader import ConfigLoader
+
+    tf = _tf()
+    res = Res()
+    model, cardname, m0, g0, seed = payload["model"], payload["card"], payload["m0"], payload["g0"], payload["seed"]
+    extra = dict(payload.get("extra") or {})
+    (JR, PR), (JB, PB) = LS_CARDS[cardname]
+    cfg = {
+        "data": {"dat_order": ["B", "C", "D"]},
+        "decay": {"A": [["R_BC", "D", {"p_break": True}]], "R_BC": [["B", "C", {"p_break": True}]] if cardname == "l012" else ["B", "C"]},
+        "particle": {
+            "$top": {"A": {"J": 1, "P": -1, "mass": MTOP}},
+            "$finals": {"B": {"J": JB, "P": PB, "mass": M1}, "C": {"J": 0, "P": -1, "mass": M2}, "D": {"J": 0, "P": -1, "mass": MD}},
+            "R_BC": {"J": JR, "P": PR, "mass": m0, "width": g0, "model": model, **extra},
+        },
+    }
+    c = ConfigLoader(cfg)
+    amp = c.get_amplitude()
+    p = amp.decay_group.get_particle("R_BC")
+    if payload.get("set_params"):
+        amp.set_params(payload["set_params"])
+    pars = amp.get_params()
+    ls = [tuple(i) for i in p.decay[0].get_ls_list()]
+    ms = mlat(M1 + M2 + 0.01, MTOP - MD, 12, seed)
+    mt = tf.constant(ms)
+    d = 3.0
+    case = dict(payload, part="ls")
+    res.case(nontrivial_key=(model, cardname, m0, g0, repr(extra), repr(payload.get("set_params"))), outcome=(model, len(ls)))
+    if len(ls) < 2:
+        return {"harness_error": "card %s gives fewer than two (l,s) couplings: %r" % (cardname, ls)}
+    mass0 = float(np.asarray(p.get_mass()))
+    q2t = get_relative_p2(mt, tf.constant(M1, dtype="float64"), tf.constant(M2, dtype="float64"))
+    q02t = get_relative_p2(tf.constant(mass0, dtype="float64"), tf.constant(M1, dtype="float64"), tf.constant(M2, dtype="float64"))
+    got = [np.asarray(g) for g in p.get_ls_amp(mt, ls, q2t, q02t, d)]
+    q, q0 = q_of(ms, M1, M2), float(q_of(mass0, M1, M2))
+    bar = [(q / q0) ** l * R.blatt_weisskopf(l, q, q0, d) for l, _ in ls]
+    legacy = None
+    if model == "BWR_LS":
+        th = [pars["R_BC_theta%d" % i] for i in range(len(ls) - 1)]
+        gam, f = [], 1.0
+        for t in th:
+            gam.append(f * math.cos(t))
+            f *= math.sin(t)
+        gam.append(f)
+        if abs(sum(x * x for x in gam) - 1) > 1e-12:
+            return {"harness_error": "reference gamma_i not normalised"}
+        g = [gi * b for gi, b in zip(gam, bar)]
+        tot = sum(x * x for x in g)
+        rho = (q / ms) / (q0 / m0)
+        ref = [gi / (m0 * m0 - ms * ms - 1j * m0 * g0 * rho * tot) for gi in g]
+        legacy = [gi / (m0 * m0 - ms * ms - 1j * m0 * g0 * (q / q0) * (ms / m0) * tot) for gi in g]
+    elif model == "BWR_LS2":
+        rho = (q / ms) / (q0 / m0)
+        ref = [1 / (m0 * m0 - ms * ms - 1j * m0 * g0 * rho * b * b) for b in bar]
+    elif model in ("MultiBWR", "MultiBW"):
+        # "combine multi BWR (BW) into one particle": R_i = barrier_i * sum_k c_ik BWR(m; m_k, G_k) with the lowest l,
+        # each term as documented for BWR / BW, q0 as the model passes it (break-up momentum at the first mass)
+        mk, gk = extra["mass_list"], extra["width_list"]
+        lmin = min(l for l, _ in ls)
+        ref = []
+        for i in range(len(ls)):
+            tot = 0
+            for k in range(len(mk)):
+                a, b = pars["R_BC_coeff_%d_%dr" % (i, k)], pars["R_BC_coeff_%d_%di" % (i, k)]
+                polar = amp.vm.complex_vars.get("R_BC_coeff_%d_%d" % (i, k), True)
+                cik = a * np.exp(1j * b) if polar else complex(a, b)
+                term = R.bwr(ms, mk[k], gk[k], q, q0, lmin, d) if model == "MultiBWR" else 1 / (mk[k] ** 2 - ms * ms - 1j * mk[k] * gk[k])
+                tot = tot + cik * term
+            ref.append(bar[i] * tot)
+    else:
+        return {"harness_error": "no reference for %s" % model}
+    ok = len(got) == len(ref) and all(close(a, b, 1e-9) for a, b in zip(got, ref))
+    if not ok:
+        kind = "value"
+        if len(got) == len(ref) and all(close(np.conj(a), b, 1e-9) for a, b in zip(got, ref)):
+            kind = "conjugated"
+        elif legacy is not None and not extra.get("fix_bug1") and len(got) == len(legacy) and all(close(a, b, 1e-9) for a, b in zip(got, legacy)):
+            kind = "rho-ratio-inverted-unless-fix_bug1"
+        i = next((i for i, (a, b) in enumerate(zip(got, ref)) if not close(a, b, 1e-9)), 0)
+        res.violation("%s:%s" % (model, kind), "model %s with couplings %r (m0=%r g0=%r %r): R_%d(m) = %r, documented formula gives %r at m=%r"
+                      % (model, ls, m0, g0, extra, i, complex(got[i].reshape(-1)[3]) if len(got) > i else None, complex(np.asarray(ref[i]).reshape(-1)[3]), float(ms[3])), case)
+    if model == "BWR_LS" and extra.get("fix_bug1") and payload.get("dom", True):
+        # symbolic denominator: dom * R_i = g_i
+        import sympy as sym
+
+        var = p.get_sympy_var()
+        f = p.get_sympy_dom(*var)
+        num = p.get_num_var()
+        sub = {var[1]: float(np.asarray(num[0])), var[2]: float(np.asarray(num[1])), var[4]: float(np.asarray(num[3])), var[5]: float(np.asarray(num[4]))}
+        for sv, nv in zip(var[3], num[2]):
+            sub[sv] = float(np.asarray(nv))
+        for i in range(0, len(ms), 4):
+            dv = complex(sym.N(f.subs(sub).subs({var[0]: float(ms[i])}), 30))
+            res.case(nontrivial_key=("ls-dom", model, cardname, m0, g0, i))
+            for k in range(len(ls)):
+                lhs = dv * complex(got[k][i])
+                if abs(lhs - g[k][i]) > 1e-8 * max(1, abs(g[k][i])):
+                    res.violation("%s:sympy-dom" % model, "get_sympy_dom * R_%d = %r at m=%r (expected g_%d = %r)" % (k, lhs, float(ms[i]), k, float(g[k][i])), case)
+                    break
+    res.sample({"part": "ls", "model": model, "card": cardname, "couplings": ls, "m0": m0, "g0": g0, "extra": extra}, limit=1)
+    return res.done()
+
+
+def ls_items(tier, seed):
+    items = []
+    cards = ["l02", "l012"] if tier == "quick" else list(LS_CARDS)
+    pts = [(1.0, 0.1)] if tier == "quick" else [(1.0, 0.1), (1.6, 0.3)]
+    thetas = [{"R_BC_theta0": 0.7, "R_BC_theta1": 2.1}, {"R_BC_theta0": -1.9, "R_BC_theta1": 0.4}]
+    coeffs = [{"R_BC_coeff_0_1r": 0.8, "R_BC_coeff_0_1i": -0.6, "R_BC_coeff_1_0r": 0.3, "R_BC_coeff_1_0i": 1.1, "R_BC_coeff_1_1r": -0.9, "R_BC_coeff_1_1i": 0.2,
+               "R_BC_coeff_2_0r": 0.5, "R_BC_coeff_2_0i": -0.4, "R_BC_coeff_2_1r": 1.2, "R_BC_coeff_2_1i": 0.7}]
+    for card in cards:
+        for m0, g0 in pts:
+            for th in thetas if tier != "quick" else thetas[:1]:
+                items.append({"model": "BWR_LS", "card": card, "m0": m0, "g0": g0, "seed": seed, "set_params": th})
+                items.append({"model": "BWR_LS", "card": card, "m0": m0, "g0": g0, "seed": seed, "set_params": th, "extra": {"fix_bug1": True}})
+            items.append({"model": "BWR_LS2", "card": card, "m0": m0, "g0": g0, "seed": seed})
+            for model in ("MultiBWR", "MultiBW"):
+                for ml, wl in ([([m0, m0 + 0.4], [g0, 0.2])] if tier == "quick" else [([m0, m0 + 0.4], [g0, 0.2]), ([m0, m0 - 0.2, m0 + 0.5], [g0, 0.05, 0.3])]):
+                    sp = dict(coeffs[0])
+                    if len(ml) == 3:
+                        sp.update({"R_BC_coeff_0_2r": -0.7, "R_BC_coeff_0_2i": 0.9, "R_BC_coeff_1_2r": 0.1, "R_BC_coeff_1_2i": -1.3, "R_BC_coeff_2_2r": 0.6, "R_BC_coeff_2_2i": 0.6})
+                    items.append({"model": model, "card": card, "m0": m0, "g0": g0, "seed": seed, "extra": {"mass_list": ml, "width_list": wl}, "set_params": sp})
+    return items
 
 
 def particle_items(tier, seed):
@@ -360,6 +519,17 @@ def particle_items(tier, seed):
         for gs in ((0.3, 0.2), (-0.3, 0.5)):
             items.append({"model": model, "J": 0, "m0": 1.0, "g0": 0.1, "seed": seed, "dom": False,
                           "extra": {"mass_list": [[0.3, 0.4], [0.5, 0.6]], "g_0": gs[0], "g_1": gs[1]}})
+    # general Flatte forms: options x orbital momenta; symbolic denominator on the sheet whose momenta are the numeric ones
+    ml = [[0.3, 0.4], [0.5, 0.6]]
+    opts = [{}, {"l_list": [0, 1]}, {"l_list": [1, 2], "has_bprime": False}, {"l_list": [0, 1], "no_m0": True}, {"l_list": [0, 1], "no_q0": True},
+            {"l_list": [0, 1], "cut_phsp": True}, {"l_list": [2, 1], "no_q0": True, "no_m0": True}]
+    for model in ("FlatteGen", "Flatte2"):
+        for o in (opts if tier != "quick" else opts[:2] + opts[3:6]):
+            for m0 in ((1.0,) if tier == "quick" else (1.0, 1.6)):
+                items.append({"model": model, "J": 0, "m0": m0, "g0": 0.1, "seed": seed, "dom": True, "sheet": 3,
+                              "extra": dict(o, mass_list=ml, g_0=0.3, g_1=-0.45 if model == "Flatte2" else 0.45)})
+    for model in ("Flatte", "FlatteC"):
+        items.append({"model": model, "J": 0, "m0": 1.0, "g0": 0.1, "seed": seed, "dom": True, "sheet": 3, "extra": {"mass_list": ml, "g_0": 0.3, "g_1": 0.2}})
     return items
 
 
@@ -368,22 +538,26 @@ def run(tier, seed, only=None):
         PID, tier, seed, "exploration",
         rule="(a) breit_wigner functions on lattices: L=0..8 x d in {1,3,5} x m0 in 3 x G0 in 2 x 12 masses; (b) registered particle models "
              "through ConfigLoader/Particle.__call__: model x J(=L) x (m0,G0) x 14-16 masses incl. below threshold where claimed; "
-             "(c) sympy denominator x line shape. distinct = per (model/function, L, d, m0, G0)",
+             "(c) sympy denominator x line shape; (d) split-(l,s) models BWR_LS / BWR_LS2 / MultiBWR / MultiBW with 2-3 couplings through get_ls_amp. distinct = per (model/function, L, d, m0, G0)",
         assumptions=["float64 inputs (tensors), as the library passes them", "reference formulas are the docstrings' formulas evaluated in numpy complex128",
                      "GS_rho pion masses as documented; BWR_below checked with m0 above threshold (where it must equal BWR2)"],
     )
-    parts = only or ["raw", "particle"]
+    parts = only or ["raw", "particle", "ls"]
     out = []
     if "raw" in parts:
         out += pool.run_items("mc.props.C15", "raw_work", [{"Ls": [L], "seed": seed} for L in range(0, 9)])
     if "particle" in parts:
         out += pool.run_items("mc.props.C15", "particle_work", particle_items(tier, seed), chunksize=2)
+    if "ls" in parts:
+        out += pool.run_items("mc.props.C15", "ls_work", ls_items(tier, seed), chunksize=2)
     for r in out:
         rep.merge(r)
     return rep
 
 
 def replay(case):
+    if case.get("part") == "ls":
+        return ls_work({k: v for k, v in case.items() if k != "part"})["viol"]
     if case.get("part") == "raw":
         return raw_work({"Ls": [case["L"]], "seed": case.get("seed", 0)})["viol"]
     c = {k: v for k, v in case.items() if k != "part"}
